@@ -2,54 +2,75 @@
 (* Histories of garble builds over shared caches (properties C06, C07; the   *)
 (* cache half of C03/C18).                                                  *)
 (*                                                                          *)
-(* cmd/go's rule, as perturbed by garble: a package is recompiled iff its   *)
-(* action ID is absent from GOCACHE.  The action ID hashes the package's    *)
-(* source, the go-level build inputs, the *content* of its dependencies'    *)
-(* outputs and the tool ID; `garble toolexec compile -V=full`               *)
-(* (alterToolVersion/addGarbleToHash/appendFlags) folds garble's own inputs *)
-(* into the tool ID: KeyFields.  What the obfuscator actually reads when it *)
-(* transforms a package is ObfFieldsOf.  Staleness is exactly               *)
-(* ObfFieldsOf \ (KeyFields + go-level inputs) # {}.                        *)
+(* Three layers, as in the implementation:                                  *)
 (*                                                                          *)
-(* GARBLE_CACHE/build holds, per GarbleActionID, the "deep" reflection      *)
-(* facts of a package (loadPkgCache/computePkgCache, cache_pkg.go); entries *)
-(* are (index, data) file pairs as in go-internal/cache; anything but an    *)
-(* intact pair is a miss.                                                   *)
+(* 1. `go list -export` (appendListedPackages) computes, for the PLAIN      *)
+(*    build, every package's action ID: it hashes the package's own source, *)
+(*    the go-level inputs and the CONTENT IDs of its imports' plain         *)
+(*    objects.  A plain object depends on the package's source and on the   *)
+(*    export data of what it imports - so an edit inside a function body    *)
+(*    changes the object of that package and the action ID of its direct    *)
+(*    importers, but not their objects, hence not the action IDs of the     *)
+(*    packages further up.  GarbleActionID = H(plain action ID, garble      *)
+(*    binary, GOGARBLE, build-affecting flags): KeyFields.                  *)
+(* 2. cmd/go's obfuscated build recompiles a package iff its action ID,     *)
+(*    which hashes the source, the go-level inputs, the tool ID             *)
+(*    (alterToolVersion: KeyFields again) and the content of its imports'   *)
+(*    OBFUSCATED objects, is absent from GOCACHE.                           *)
+(* 3. a recompiled package is transformed with what ObfFieldsOf lists plus  *)
+(*    its name salt (its GarbleActionID, or the seed), the name salts of    *)
+(*    its imports and the reflection facts of its whole import closure,     *)
+(*    loaded from GARBLE_CACHE/build under its GarbleActionID               *)
+(*    (loadPkgCache/computePkgCache, cache_pkg.go); entries are (index,     *)
+(*    data) file pairs as in go-internal/cache; anything but an intact      *)
+(*    pair is a miss.  internal/abi is compiled with the pclntab magic,     *)
+(*    which the linker is handed again at link time.                        *)
 (*                                                                          *)
-(* The module is a chain  leaf <- mid <- main  (all reach reflect).         *)
+(* Staleness is: some input of layer 3 is covered neither by the action ID  *)
+(* of layer 2 nor by the key of the GARBLE_CACHE entry.                     *)
+(*                                                                          *)
+(* Packages:  abi <- rt <- leaf <- mid <- main  (internal/abi, runtime and  *)
+(* the three packages of the fixture module; all of leaf, mid, main reach   *)
+(* reflect).                                                                *)
 EXTENDS Naturals, Sequences, FiniteSets, TLC, Json
 
 CONSTANTS
   Cfgs,         \* set of configurations (records, see CfgFields)
   KeyFields,    \* cfg fields hashed into the tool id, as recorded from the real garble
   XNameKeyed,   \* BOOLEAN: with -literals the -X target names are part of the tool id
+  MagicFrom,    \* "abi" (the code since the fix of F20) | "rt" (before: runtime's GarbleActionID)
+  FactsKey,     \* "own" (the code: entry keyed by the package's own GarbleActionID) |
+                \* "closure" (what-if repair: the key covers the action IDs of the import closure)
+  EditPkgs,     \* packages of the module that the history may edit
   MaxBuilds, MaxEdits, MaxDamage
 
-Pkgs == <<"leaf", "mid", "main">>          \* topological order
-PkgSet == {"leaf", "mid", "main"}
-DepOf(p) == CASE p = "leaf" -> "none" [] p = "mid" -> "leaf" [] p = "main" -> "mid"
+Pkgs == <<"abi", "rt", "leaf", "mid", "main">>          \* topological order
+PkgSet == {"abi", "rt", "leaf", "mid", "main"}
+ModPkgs == {"leaf", "mid", "main"}
+DepOf(p) == CASE p = "abi" -> "none" [] p = "rt" -> "abi" [] p = "leaf" -> "rt" [] p = "mid" -> "leaf" [] p = "main" -> "mid"
 
-CfgFields == {"tiny", "lit", "seed", "gogarble", "ctrl", "tags", "xname", "xval"}
+CfgFields == {"tiny", "lit", "seed", "gogarble", "ctrl", "tags", "tagsrt", "xname", "xval"}
 (* inputs of the compile action that cmd/go itself hashes.  Build tags enter an action  *)
-(* ID only through the set of files they select: in the fixture module only package    *)
-(* main has a tag-dependent file, so only main's action ID moves with -tags.           *)
-GoCompileFields == {"tags"}
-GoFieldsOf(p) == IF p = "main" THEN GoCompileFields ELSE {}
-(* what garble's transformation of package p reads *)
+(* ID only through the set of files they select: the fixture's tag selects a file of    *)
+(* package main, the runtime's debuglog tag files of package runtime.                   *)
+GoFieldsOf(p) == CASE p = "main" -> {"tags"} [] p = "rt" -> {"tagsrt"} [] OTHER -> {}
+(* which packages GOGARBLE selects: std packages only under "all"; never the runtime    *)
+Obfuscated(p, cfg) == p \in ModPkgs /\ (cfg.gogarble = "all" \/ p \in {"leaf", "mid"})
+(* what garble's transformation of package p reads from the configuration *)
 ObfFieldsOf(p, cfg) == {"tiny", "lit", "seed", "gogarble", "ctrl"}
                          \cup (IF cfg.lit /\ p = "main" THEN {"xname"} ELSE {})
 KeyFieldsOf(cfg) == KeyFields \cup (IF cfg.lit /\ XNameKeyed THEN {"xname"} ELSE {})
 
 Proj(cfg, F) == [f \in F |-> cfg[f]]
 
-(* design-level statement of C06: every input of the transformation is keyed *)
+(* design-level statement of C06: every configuration input of the transformation is keyed *)
 KeyCovers == \A cfg \in Cfgs : \A p \in PkgSet : ObfFieldsOf(p, cfg) \subseteq KeyFieldsOf(cfg) \cup GoFieldsOf(p)
 
 VARIABLES
-  src,      \* [PkgSet -> Nat] source version of each package
+  src,      \* [PkgSet -> [api |-> Nat, body |-> Nat]] source version of each package
   gocache,  \* set of [aid, out]: cmd/go's compile cache
   gcache,   \* set of [key, st, facts]: GARBLE_CACHE/build entries; st in EntryStates
-  last,     \* result of the last build: [built |-> BOOLEAN, cfg, out, compiled, ok]
+  last,     \* result of the last build
   nb, ne, nd,
   hist      \* history (output only; hidden by VIEW)
 vars == <<src, gocache, gcache, last, nb, ne, nd, hist>>
@@ -58,59 +79,83 @@ View == <<src, gocache, gcache, last, nb, ne, nd>>
 EntryStates == {"ok", "noindex", "emptyidx", "truncidx", "nodata", "truncdata"}
 DamageKinds == EntryStates \ {"ok"}
 
-(* ------------------------------------------------------------------ one build *)
-OwnFacts(p, s) == {<<p, s[p]>>}
-RECURSIVE Deep(_, _)
-Deep(p, s) == OwnFacts(p, s) \cup (IF DepOf(p) = "none" THEN {} ELSE Deep(DepOf(p), s))
+(* ------------------------------------------------------------------ layer 1: the plain build *)
+RECURSIVE PlainExport(_, _), PlainAid(_, _, _)
+PlainExport(p, s) == IF p = "none" THEN <<>> ELSE <<p, s[p].api, PlainExport(DepOf(p), s)>>
+PlainContent(p, cfg, s) == IF p = "none" THEN <<>> ELSE <<p, s[p], Proj(cfg, GoFieldsOf(p)), PlainExport(DepOf(p), s)>>
+PlainAid(p, cfg, s) == <<p, s[p], Proj(cfg, GoFieldsOf(p)), PlainContent(DepOf(p), cfg, s)>>
+GarbleId(p, cfg, s) == <<PlainAid(p, cfg, s), Proj(cfg, KeyFieldsOf(cfg))>>
+(* name salt: hashWithPackage uses the GarbleActionID, or the import path under -seed *)
+(* (uniform shape <<name, seed, id or <<>> >>: TLC cannot compare a string with a tuple)  *)
+NameSalt(p, cfg, s) == IF p = "none" THEN <<>> ELSE <<p, cfg.seed, IF cfg.seed # "none" THEN <<>> ELSE GarbleId(p, cfg, s)>>
+Magic(cfg, s) == <<"magic", cfg.seed, IF cfg.seed # "none" THEN <<>> ELSE GarbleId(IF MagicFrom = "abi" THEN "abi" ELSE "rt", cfg, s)>>
 
-Aid(p, cfg, s, depOut) == [p |-> p, s |-> s[p], go |-> Proj(cfg, GoFieldsOf(p)), tool |-> Proj(cfg, KeyFieldsOf(cfg)), deps |-> depOut]
-Out(p, cfg, s, depOut, facts) == [p |-> p, s |-> s[p], obf |-> Proj(cfg, ObfFieldsOf(p, cfg)), go |-> Proj(cfg, GoFieldsOf(p)),
-                                  deps |-> depOut, facts |-> facts]
+(* ------------------------------------------------------------------ reflection facts *)
+OwnFacts(p, s) == IF p \in ModPkgs THEN {<<p, s[p]>>} ELSE {}
+RECURSIVE Deep(_, _)
+Deep(p, s) == IF p = "none" THEN {} ELSE OwnFacts(p, s) \cup Deep(DepOf(p), s)
+RECURSIVE ClosureIds(_, _, _)
+ClosureIds(p, cfg, s) == IF p = "none" THEN <<>> ELSE <<GarbleId(p, cfg, s), ClosureIds(DepOf(p), cfg, s)>>
+FactsKeyOf(p, cfg, s) == IF FactsKey = "own" THEN GarbleId(p, cfg, s) ELSE ClosureIds(p, cfg, s)
 
 Hit(gc, k) == \E e \in gc : e.key = k /\ e.st = "ok"
 FactsAt(gc, k) == (CHOOSE e \in gc : e.key = k /\ e.st = "ok").facts
-Put(gc, k, f) == {e \in gc : e.key # k} \cup {[key |-> k, st |-> "ok", facts |-> f]}
+Put(gc, k, p, f) == {e \in gc : e.key # k} \cup {[key |-> k, p |-> p, st |-> "ok", facts |-> f]}
 
-(* keys of the build in progress: key[p] is known once p's dependencies are built *)
-(* computePkgCache(p): merge every dependency's entry, recursing on a miss;        *)
-(* returns <<gcache', facts>>.  keyOf gives the GarbleActionID of each package.    *)
+(* computePkgCache(p): merge the entry of the import, recursing on a miss; returns <<gcache', facts>> *)
+(* (packages that do not depend on reflect - here the two std ones - have no entry)                  *)
 RECURSIVE Compute(_, _, _, _)
-Compute(p, s, keyOf, gc) ==
+Compute(p, cfg, s, gc) ==
+  IF p \notin ModPkgs THEN <<gc, {}>> ELSE
   LET d == DepOf(p)
-      depRes == IF d = "none" THEN <<gc, {}>>
-                ELSE IF Hit(gc, keyOf[d]) THEN <<gc, FactsAt(gc, keyOf[d])>>
-                ELSE Compute(d, s, keyOf, gc)
+      depRes == IF d \notin ModPkgs THEN <<gc, {}>>
+                ELSE IF Hit(gc, FactsKeyOf(d, cfg, s)) THEN <<gc, FactsAt(gc, FactsKeyOf(d, cfg, s))>>
+                ELSE Compute(d, cfg, s, gc)
       facts == depRes[2] \cup OwnFacts(p, s)
-  IN <<Put(depRes[1], keyOf[p], facts), facts>>
+  IN <<Put(depRes[1], FactsKeyOf(p, cfg, s), p, facts), facts>>
+LoadPkgCache(p, cfg, s, gc) ==
+  IF Hit(gc, FactsKeyOf(p, cfg, s)) THEN <<gc, FactsAt(gc, FactsKeyOf(p, cfg, s))>> ELSE Compute(p, cfg, s, gc)
 
-LoadPkgCache(p, s, keyOf, gc) ==
-  IF Hit(gc, keyOf[p]) THEN <<gc, FactsAt(gc, keyOf[p])>> ELSE Compute(p, s, keyOf, gc)
+(* ------------------------------------------------------------------ layers 2 and 3: one obfuscated build *)
+(* the obfuscated object of p: everything the transformation read *)
+Out(p, cfg, s, depOut, facts) ==
+  [p |-> p, s |-> s[p], go |-> Proj(cfg, GoFieldsOf(p)),
+   obf |-> IF Obfuscated(p, cfg) THEN Proj(cfg, ObfFieldsOf(p, cfg)) ELSE <<>>,
+   salt |-> IF Obfuscated(p, cfg) THEN NameSalt(p, cfg, s) ELSE <<>>,
+   depsalt |-> IF Obfuscated(DepOf(p), cfg) THEN NameSalt(DepOf(p), cfg, s) ELSE <<>>,
+   magic |-> IF p = "abi" THEN Magic(cfg, s) ELSE <<>>,
+   facts |-> IF Obfuscated(p, cfg) THEN facts ELSE {},
+   deps |-> depOut]
+(* cmd/go's action ID of the obfuscated compile *)
+Aid(p, cfg, s, depOut) == [p |-> p, s |-> s[p], go |-> Proj(cfg, GoFieldsOf(p)), tool |-> Proj(cfg, KeyFieldsOf(cfg)), deps |-> depOut]
 
-(* state threaded through the packages of one build *)
-RECURSIVE BuildFrom(_, _, _, _, _, _, _, _)
-BuildFrom(i, cfg, s, goc, gc, keyOf, outs, compiled) ==
+RECURSIVE BuildFrom(_, _, _, _, _, _, _)
+BuildFrom(i, cfg, s, goc, gc, outs, compiled) ==
   IF i > Len(Pkgs) THEN [goc |-> goc, gc |-> gc, outs |-> outs, compiled |-> compiled]
   ELSE LET p == Pkgs[i]
            depOut == IF DepOf(p) = "none" THEN <<>> ELSE <<outs[DepOf(p)]>>
            aid == Aid(p, cfg, s, depOut)
-           keyOf2 == [keyOf EXCEPT ![p] = aid]
        IN IF \E e \in goc : e.aid = aid
           THEN LET e == CHOOSE e \in goc : e.aid = aid
-               IN BuildFrom(i + 1, cfg, s, goc, gc, keyOf2, [outs EXCEPT ![p] = e.out], compiled)
-          ELSE LET lp == LoadPkgCache(p, s, keyOf2, gc)
+               IN BuildFrom(i + 1, cfg, s, goc, gc, [outs EXCEPT ![p] = e.out], compiled)
+          ELSE LET lp == LoadPkgCache(p, cfg, s, gc)
                    o == Out(p, cfg, s, depOut, lp[2])
-               IN BuildFrom(i + 1, cfg, s, goc \cup {[aid |-> aid, out |-> o]}, lp[1], keyOf2,
+               IN BuildFrom(i + 1, cfg, s, goc \cup {[aid |-> aid, out |-> o]}, lp[1],
                             [outs EXCEPT ![p] = o], compiled \cup {p})
 
-NoKeys == [p \in PkgSet |-> "nokey"]
 NoOuts == [p \in PkgSet |-> "noout"]
-DoBuild(cfg, s, goc, gc) == BuildFrom(1, cfg, s, goc, gc, NoKeys, NoOuts, {})
-(* the link step is keyed by everything (cmd/go hashes the linker flags), so it is never stale *)
-Binary(cfg, outs) == [main |-> outs["main"], x |-> cfg.xval]
-Cold(cfg, s) == Binary(cfg, DoBuild(cfg, s, {}, {}).outs)
+DoBuild(cfg, s, goc, gc) == BuildFrom(1, cfg, s, goc, gc, NoOuts, {})
+(* the link step is keyed by everything (cmd/go hashes the linker flags, garble passes the *)
+(* magic through the environment of every link), so it is never stale by itself           *)
+Binary(cfg, s, outs) == [main |-> outs["main"], x |-> cfg.xval, linkmagic |-> Magic(cfg, s)]
+Cold(cfg, s) == Binary(cfg, s, DoBuild(cfg, s, {}, {}).outs)
+(* the program starts iff the magic in internal/abi is the one the linker wrote *)
+RECURSIVE AbiOut(_)
+AbiOut(o) == IF o.p = "abi" THEN o ELSE AbiOut(o.deps[1])
+Starts(bin) == AbiOut(bin.main).magic = bin.linkmagic
 
 (* ------------------------------------------------------------------ actions *)
-Init == /\ src = [p \in PkgSet |-> 0]
+Init == /\ src = [p \in PkgSet |-> [api |-> 0, body |-> 0]]
         /\ gocache = {} /\ gcache = {}
         /\ last = [built |-> FALSE]
         /\ nb = 0 /\ ne = 0 /\ nd = 0
@@ -121,19 +166,29 @@ Build(cfg) ==
   /\ LET r == DoBuild(cfg, src, gocache, gcache) IN
        /\ gocache' = r.goc
        /\ gcache' = r.gc
-       /\ last' = [built |-> TRUE, cfg |-> cfg, out |-> Binary(cfg, r.outs), compiled |-> r.compiled,
-                   recomputed |-> {e.key.p : e \in r.gc \ gcache},
+       /\ last' = [built |-> TRUE, cfg |-> cfg, out |-> Binary(cfg, src, r.outs), compiled |-> r.compiled,
+                   recomputed |-> {e.p : e \in r.gc \ gcache},
                    rework |-> (last.built /\ last.cfg = cfg /\ last.fresh /\ r.compiled # {}), fresh |-> TRUE]
   /\ nb' = nb + 1
   /\ hist' = Append(hist, [a |-> "build", cfg |-> cfg])
   /\ UNCHANGED <<src, ne, nd>>
 
-Edit(p) ==
-  /\ ne < MaxEdits
-  /\ src' = [src EXCEPT ![p] = @ + 1]
+(* an edit that changes the package's export data (new exported declaration, changed signature) *)
+EditApi(p) ==
+  /\ ne < MaxEdits /\ p \in EditPkgs
+  /\ src' = [src EXCEPT ![p].api = @ + 1]
   /\ ne' = ne + 1
   /\ last' = IF last.built THEN [last EXCEPT !.fresh = FALSE] ELSE last
-  /\ hist' = Append(hist, [a |-> "edit", p |-> p])
+  /\ hist' = Append(hist, [a |-> "edit", kind |-> "api", p |-> p])
+  /\ UNCHANGED <<gocache, gcache, nb, nd>>
+(* an edit inside a function body: the package's object changes, its export data does not; *)
+(* its reflection facts may (a parameter starts to reach reflect.TypeOf)                   *)
+EditBody(p) ==
+  /\ ne < MaxEdits /\ p \in EditPkgs
+  /\ src' = [src EXCEPT ![p].body = @ + 1]
+  /\ ne' = ne + 1
+  /\ last' = IF last.built THEN [last EXCEPT !.fresh = FALSE] ELSE last
+  /\ hist' = Append(hist, [a |-> "edit", kind |-> "body", p |-> p])
   /\ UNCHANGED <<gocache, gcache, nb, nd>>
 
 (* C07 faults: an entry of GARBLE_CACHE/build is damaged, an entry of GOCACHE is lost, *)
@@ -142,7 +197,7 @@ DamageEntry(e, k) ==
   /\ nd < MaxDamage /\ e \in gcache /\ e.st = "ok"
   /\ gcache' = (gcache \ {e}) \cup {[e EXCEPT !.st = k]}
   /\ nd' = nd + 1
-  /\ hist' = Append(hist, [a |-> "damage", p |-> e.key.p, kind |-> k])
+  /\ hist' = Append(hist, [a |-> "damage", p |-> e.p, kind |-> k])
   /\ last' = IF last.built THEN [last EXCEPT !.fresh = FALSE] ELSE last
   /\ UNCHANGED <<src, gocache, nb, ne>>
 LoseGo(e) ==
@@ -162,7 +217,7 @@ WipeStore(which) ==
   /\ UNCHANGED <<src, nb, ne>>
 
 Next == \/ \E cfg \in Cfgs : Build(cfg)
-        \/ \E p \in PkgSet : Edit(p)
+        \/ \E p \in ModPkgs : EditApi(p) \/ EditBody(p)
         \/ \E e \in gcache, k \in DamageKinds : DamageEntry(e, k)
         \/ \E e \in gocache : LoseGo(e)
         \/ \E w \in {"gocache", "gcache", "both"} : WipeStore(w)
@@ -174,13 +229,15 @@ NoStale == (last.built /\ last.fresh) => last.out = Cold(last.cfg, src)
 (* C06: rebuilding with nothing changed recompiles no package *)
 NoRework == last.built => ~last.rework
 (* C07: reflection facts handed to the obfuscator are the complete ones *)
-FactsComplete == (last.built /\ last.fresh) => last.out.main.facts = Deep("main", src)
+FactsComplete == (last.built /\ last.fresh /\ Obfuscated("main", last.cfg)) => last.out.main.facts = Deep("main", src)
+(* the binary starts: the magic compiled into internal/abi is the one given to the linker *)
+MagicAgrees == (last.built /\ last.fresh) => Starts(last.out)
 
 (* history output for behaviour replay (B2): printed when a history is complete *)
 EmitHist == (nb = MaxBuilds) => PrintT(<<"HIST", ToJson(hist)>>)
 
 (* ------------------------------------------------------------------ configuration alphabets *)
-Base == [tiny |-> FALSE, lit |-> FALSE, seed |-> "none", gogarble |-> "all", ctrl |-> FALSE, tags |-> FALSE,
+Base == [tiny |-> FALSE, lit |-> FALSE, seed |-> "none", gogarble |-> "all", ctrl |-> FALSE, tags |-> FALSE, tagsrt |-> FALSE,
          xname |-> FALSE, xval |-> "none"]
 CTiny == [Base EXCEPT !.tiny = TRUE]
 CLit == [Base EXCEPT !.lit = TRUE]
@@ -189,12 +246,14 @@ CSeedB == [Base EXCEPT !.seed = "B"]
 CSub == [Base EXCEPT !.gogarble = "sub"]
 CCtrl == [Base EXCEPT !.ctrl = TRUE]
 CTags == [Base EXCEPT !.tags = TRUE]
+CTagsRt == [Base EXCEPT !.tagsrt = TRUE]
 CX1 == [Base EXCEPT !.xname = TRUE, !.xval = "v1"]
 CX2 == [Base EXCEPT !.xname = TRUE, !.xval = "v2"]
 CLitX1 == [CLit EXCEPT !.xname = TRUE, !.xval = "v1"]
 CLitX2 == [CLit EXCEPT !.xname = TRUE, !.xval = "v2"]
 CTinyLit == [CTiny EXCEPT !.lit = TRUE]
-CfgsAll == {Base, CTiny, CLit, CSeedA, CSeedB, CSub, CCtrl, CTags, CX1, CX2, CLitX1, CLitX2, CTinyLit}
-CfgsNoLitX == {Base, CTiny, CLit, CSeedA, CSeedB, CSub, CCtrl, CTags, CX1, CX2, CTinyLit}
+CfgsAll == {Base, CTiny, CLit, CSeedA, CSeedB, CSub, CCtrl, CTags, CTagsRt, CX1, CX2, CLitX1, CLitX2, CTinyLit}
+CfgsNoLitX == {Base, CTiny, CLit, CSeedA, CSeedB, CSub, CCtrl, CTags, CTagsRt, CX1, CX2, CTinyLit}
 CfgsFault == {Base, CLit}
+CfgsBody == {Base, CSeedA}
 =============================================================================
